@@ -253,7 +253,7 @@ def classify(z):
 
 FMIX = [0, 1, -1, 3, -7, 2**53, 2**53 + 1, -(2**53) - 1, 2**55, -2**55, 2**63, 2**64 + 1, 2**100, 10**400, -10**400,
         0.0, -0.0, 1.0, -1.0, 0.5, -1.5, 2.5, 1e308, -1e308, 5e-324, 2.0**53, 2.0**55, 36028797018963967.0, -36028797018963968.0, 1.7976931348623157e308,
-        Fraction(1, 3), Fraction(-7, 2), Fraction(2**70 + 1, 2)]
+        Fraction(1, 3), Fraction(-7, 2), Fraction(2**70 + 1, 2), Fraction(2**107 + 2**54 + 1, 2**108)]
 
 
 def oracle_float(op, a, b=None):
@@ -301,6 +301,7 @@ def oracle_float(op, a, b=None):
 
 
 FLOAT_FN_OPS = {
+    "lemma_dashu_ratio_to_f64_correctly_rounded": ["float", "+"], "lemma": ["float", "+"],
     "Number_div": ["/"], "div": ["/"], "add": ["+"], "mul": ["*"], "neg": ["-"], "float": ["float"], "sqrt": ["sqrt"],
     "floor": ["floor", "ceiling", "truncate"], "ceiling": ["ceiling"], "truncate": ["truncate"], "round": ["round"],
     "unary_float_fn_template": ["sqrt", "float"], "Number_is_zero": ["/"], "Number_is_negative": ["sqrt", "truncate"],
